@@ -256,7 +256,42 @@ func checkC20(p *load.Program, r *kit.Report) {
 		case keep == nil:
 			bad = "no peer is ever returned"
 		case len(lo) == 0 || len(hi) == 0 || len(unb) == 0:
+			// the tests are not all branch conditions (e.g. a helper returns `Score <= max` as a
+			// value): decide the filter by evaluating one iteration for every ordering of
+			// Score, minScore and maxScore (and maxScore == -1)
 			bad = "the filter does not compare Score with minScore (>=), maxScore (<=) and maxScore with -1"
+			if header, body := loopBodyEntry(f, keep); header != nil && body != nil {
+				var pred *ssa.BasicBlock
+				for _, pb := range body.Preds {
+					if pb == header {
+						pred = pb
+					}
+				}
+				bad = ""
+				for _, sc := range []int64{-7, -1, 0, 5} {
+					for _, mn := range []int64{sc - 1, sc, sc + 1} {
+						for _, mx := range []int64{-1, sc - 1, sc, sc + 1, -3} {
+							at, ok := miniRun(body, pred, func(v ssa.Value) (int64, bool) {
+								switch {
+								case v == ssa.Value(minP):
+									return mn, true
+								case v == ssa.Value(maxP):
+									return mx, true
+								case score(v):
+									return sc, true
+								}
+								return 0, false
+							}, func(in ssa.Instruction) bool { return in == keep || in == header.Instrs[0] })
+							want := sc >= mn && (mx == -1 || sc <= mx)
+							if !ok {
+								bad = "the filter's decision depends on something other than Score, minScore and maxScore"
+							} else if (at == keep) != want {
+								bad = fmt.Sprintf("a peer with score %d is %s for the range [%d, %d] (an upper bound of -1 means unbounded)", sc, map[bool]string{true: "returned", false: "left out"}[at == keep], mn, mx)
+							}
+						}
+					}
+				}
+			}
 		default:
 			if ok, _ := kit.DominatedByEdges(f, keep, edgesOf(lo, true), nil, p.Pos); !ok {
 				bad = "a peer below minScore can be returned"
